@@ -524,6 +524,59 @@ TARGETS.append(dict(
     alias="def impWindow (s : Sig) (b : Base) (opts : List SOpt) (mtu : Nat) (c : Choices) : Option Nat := (P0f.impWindow s b opts mtu c).toOption\n",
 ))
 
+# ---------------------------------------------------------------------------------------------- glue: from_packet, fingerprint_tcp / _mtu
+PKT_ENV = {
+    "packet.ip.version": ("pk.ip.version", "Nat"), "packet.ip.options_length": ("pk.ip.olen", "Nat"), "packet.ip.ttl": ("pk.ip.ttl", "Nat"),
+    "packet.tcp.window": ("pk.tcp.window", "Nat"), "packet.tcp.options": ("pk.tcp.opts", "Rec:Opts"),
+    "packet.ip.header_length": ("pk.ip.hdrLen", "Nat"), "packet.tcp.header_length": ("pk.tcp.hdrLen", "Nat"),
+    "packet.tcp.payload": ("pk.tcp.payload", "Bytes"), "packet.ip.quirks": ("pk.ip.quirks", "QSet"), "packet.tcp.quirks": ("pk.tcp.quirks", "QSet"),
+    "packet.tcp.type": ("pk.tcp.type", "Flags"), "packet.tcp.options.mss": ("pk.tcp.opts.mss", "Nat"), "packet.ip.is_fragment": ("pk.ip.isFragment", "Bool"),
+}
+SIG_FIELDS = (("ip_version", "Nat"), ("ip_options_length", "Int"), ("ttl", "Nat"), ("window_size", "Nat"), ("options", "Rec:Opts"),
+              ("headers_length", "Nat"), ("has_payload", "Bool"), ("quirks", "QSet"), ("syn_mss", "Nat"))
+
+
+def _pktsig_ctor(fn, args, kw, env):
+    if args or set(kw) != {w for w, _ in SIG_FIELDS}:
+        raise NotTranslatable("TCPPacketSignature(...) call shape")
+    v = {w: fn.coerce(kw[w], env, ty) if not ty.startswith("Rec:") else fn.expr(kw[w], env)[0] for w, ty in SIG_FIELDS}
+    o = v["options"]
+    return ("{ ipVer := " + v["ip_version"] + ", olen := " + v["ip_options_length"] + ", ttl := " + v["ttl"] + ", win := " + v["window_size"]
+            + f", layout := {o}.layout, mss := {o}.mss, wscale := {o}.ws, ts := {o}.ts, eolPad := {o}.eolPad"
+            + ", hdrLen := " + v["headers_length"] + ", hasPayload := " + v["has_payload"] + ", quirks := " + v["quirks"] + ", synMss := " + v["syn_mss"] + " }",
+            "Rec:PktSig")
+
+
+TARGETS.append(dict(
+    module="pyp0f.net.signatures.tcp", func="TCPPacketSignature.from_packet", file="PktSigFromPacket", lean="pktSigFromPacket", import_="P0f.Model.Wire",
+    decorators=("classmethod",), pyparams=["cls", "packet", "syn_mss"], params=[("pk", "PktL"), ("syn_mss", "Nat")],
+    ret="Rec:PktSig", lean_ret="PktSig", env=dict(PKT_ENV, syn_mss=("syn_mss", "Nat")), lean_types={"Rec:PktSig": "PktSig", "Bytes": "List Nat"},
+    calls={"cls": _pktsig_ctor},
+    alias="def pktSigFromPacket (pk : PktL) (syn_mss : Nat) : PktSig := P0f.pktSigOfPkt pk syn_mss\n",
+))
+
+
+def _drop_parse_packet(stmts):
+    return [st for st in stmts if not (isinstance(st, ast.Assign) and ast.unparse(st) == "packet = parse_packet(packet)")]
+
+
+TARGETS.append(dict(
+    module="pyp0f.fingerprint.tcp", func="fingerprint_tcp", file="FingerprintTcp", lean="fingerprintTcp",
+    import_="P0f.Generated.Logic.PktSigFromPacket\nimport P0f.Generated.Logic.FindTcpMatch\nimport P0f.Generated.Logic.TcpDistance\nimport P0f.Generated.Logic.ValidTcp\nimport P0f.Model.Api",
+    pyparams=["packet", "syn_mss", "options"], params=[("db", "TcpDb"), ("pk", "PktL"), ("syn_mss", "Nat"), ("maxDist", "Int")],
+    ret="Opt:Tuple:Opt:Rec:TcpMatch,Int", lean_ret="Option (Option TcpMatch × Int)", pre=_drop_parse_packet,
+    env=dict(PKT_ENV, syn_mss=("syn_mss", "Nat"), options=("options", "Rec:Options"), packet=("pk", "Rec:PktL")),
+    raises={"PacketError": "none"}, lean_types={"Rec:PktSig": "PktSig", "Rec:TcpMatch": "TcpMatch"},
+    records={"PktSig": {"ttl": (".ttl", "Nat")}},
+    calls={"valid_for_tcp_fingerprint": lambda fn, a, k, e: ("(P0f.Gen.validTcp pk.ip.isFragment pk.tcp.type)", "Bool"),
+           "TCPPacketSignature.from_packet": lambda fn, a, k, e: ("(P0f.Gen.pktSigFromPacket pk " + par(fn.coerce(a[1], e, "Nat")) + ")", "Rec:PktSig"),
+           "find_tcp_match": lambda fn, a, k, e: ("(P0f.Gen.findTcpMatch (if " + fn.expr(a[1], e)[0] + " == Dir.req then db.req else db.resp) (PktSig.toPSig "
+                                                  + par(fn.expr(a[0], e)[0]) + ") maxDist)", "Opt:Rec:TcpMatch"),
+           "TCPResult": lambda fn, a, k, e: ("(let m := " + fn.expr(a[2], e)[0] + "; (m, P0f.Gen.distance m " + fn.expr(a[1], e)[0] + ".ttl))", "Tuple:Opt:Rec:TcpMatch,Int")},
+    alias="def fingerprintTcp (db : TcpDb) (pk : PktL) (syn_mss : Nat) (maxDist : Int) : Option (Option TcpMatch × Int) :=\n"
+          "  if !P0f.validTcp pk.ip.isFragment pk.tcp.type then none else some (P0f.fingerprintTcp db (P0f.pktSigOfPkt pk syn_mss) (pk.tcp.type == F_SYN) maxDist)\n",
+))
+
 for t in TARGETS:
     if "import_" in t:
         t["import"] = t.pop("import_")
